@@ -582,4 +582,434 @@ Section RT.
         * ne.
         * specialize (IH (acc ++ [(k, v)]) (k :: seen) Hf2 Hinv'). rewrite <- app_assoc in IH. exact IH.
   Qed.
+
+  (* ---- operators ---- *)
+  Lemma beh_binop : forall L tokop (mkop : expr -> expr -> expr) A B na nb,
+    bnd L = L -> L <= bnd (S L) -> cont tokop = L ->
+    (forall l rhs r1 lhs w r, l <> [] -> Ev (fun f => PL (S L) f l) rhs r1 -> Ev (fun f => LoopL L f (mkop lhs rhs) r1) w r ->
+       Ev (fun f => LoopL L f lhs (tokop :: l)) w r) ->
+    Beh L A na -> Beh (S L) B nb -> Beh L (A ++ tokop :: B) (mkop na nb).
+  Proof.
+    intros L tokop mkop A B na nb Hb1 Hb2 Hct Hrule HA HB R w r HR Hc Hloop.
+    rewrite <- app_assoc. cbn [app]. apply HA; [ne | cbn [peek]; rewrite Hct, Hb1; lia |].
+    apply (Hrule _ nb R); [ne | | exact Hloop].
+    apply (beh_val (S L) B nb R HB HR); [lia | left; lia].
+  Qed.
+
+  Lemma beh_relop : forall tokop opf A B na nb,
+    relop tokop = Some opf -> tx tokop "has" = false -> tx tokop "like" = false -> tx tokop "is" = false -> cont tokop = 3 ->
+    Beh 4 A na -> Beh 4 B nb -> Beh 3 (A ++ tokop :: B) (opf na nb).
+  Proof.
+    intros tokop opf A B na nb Hop H1 H2 H3 Hct HA HB.
+    apply beh_of_val; [right; left; reflexivity|]. intros R HR Hc. cbn [bnd] in Hc.
+    rewrite <- app_assoc. cbn [app].
+    apply (ev_level 3 _ na (tokop :: B ++ R)); [lia | discriminate | discriminate | |].
+    - apply (beh_val 4 A na _ HA); [ne | cbn [peek bnd]; lia | left; cbn [peek]; lia].
+    - cbn [LoopL]. apply ev_rel_op; [exact Hop | exact H1 | exact H2 | exact H3 | ne |].
+      apply (beh_val 4 B nb R HB HR); [cbn [bnd]; lia | left; lia].
+  Qed.
+
+  (* after the left operand (at level PAdd), a relation tail that leaves R *)
+  Lemma beh_reltail : forall A na tail w, 
+    Beh 4 A na -> (forall R, R <> [] -> cont (peek R) <= 2 -> (tail ++ R) <> [] /\ cont (peek (tail ++ R)) = 3 /\
+                     Ev (fun f => rel_tail f na (tail ++ R)) w R) ->
+    Beh 3 (A ++ tail) w.
+  Proof.
+    intros A na tail w HA Ht. apply beh_of_val; [right; left; reflexivity|]. intros R HR Hc. cbn [bnd] in Hc.
+    destruct (Ht R HR Hc) as (Hne & Hct & Hev). rewrite <- app_assoc.
+    apply (ev_level 3 _ na (tail ++ R)); [lia | discriminate | discriminate | | exact Hev].
+    apply (beh_val 4 A na _ HA); [exact Hne | cbn [bnd]; lia | left; lia].
+  Qed.
+
+  Lemma beh_access : forall A na tail e',
+    Beh 7 A na ->
+    (forall R w r, R <> [] -> cont (peek R) <= 7 -> Ev (fun f => p_access_loop f e' R) w r ->
+       (tail ++ R) <> [] /\ cont (peek (tail ++ R)) <= 7 /\ Ev (fun f => p_access_loop f na (tail ++ R)) w r) ->
+    Beh 7 (A ++ tail) e'.
+  Proof.
+    intros A na tail e' HA Ht R w r HR Hc Hloop. cbn [bnd LoopL] in *.
+    destruct (Ht R w r HR Hc Hloop) as (Hne & Hct & Hev). rewrite <- app_assoc.
+    apply HA; [exact Hne | cbn [bnd]; exact Hct | exact Hev].
+  Qed.
+
+  Lemma beh_method : forall A na n items e',
+    Beh 7 A na -> Forall (good_item ")") items -> method_call n na (map snd items) = Some e' ->
+    Beh 7 (A ++ O "." :: Id n :: O "(" :: tcommas (map fst items) ++ [O ")"]) e'.
+  Proof.
+    intros A na n items e' HA Hit Hm. apply (beh_access A na _ e' HA). intros R w r HR Hc Hloop.
+    split; [discriminate|]. split; [cbn [app]; contc|]. cbn [app]. rewrite <- app_assoc. cbn [app].
+    apply (ev_access_method n _ (map snd items) R e'); [ne | | exact HR | exact Hm | exact Hloop].
+    apply (ev_exprs_list ")" items [] R); [reflexivity | reflexivity | reflexivity | exact Hit].
+  Qed.
+
+  Lemma TP_shape : forall ty, exists c r, split_path ty = c :: r /\ TP ty = Id c :: sep_toks r.
+  Proof.
+    intros ty. unfold TP, path_items. destruct (split_path ty) as [|c r] eqn:E; [exfalso; exact (split_path_acc_ne ty [] E)|].
+    exists c, r. split; [reflexivity | apply toks_path_items_of].
+  Qed.
+
+  Lemma ev_TP : forall ty R, R <> [] -> tx (peek R) "::" = false -> Ev (fun f => p_path f (TP ty ++ R)) ty R.
+  Proof.
+    intros ty R HR Hc. destruct (TP_shape ty) as (c & r & Es & Et). rewrite Et. cbn [app].
+    rewrite <- (join_split ty) at 1. rewrite Es. apply ev_p_path; assumption.
+  Qed.
+
+  Lemma child_head : forall this a, eok a = true ->
+    exists h tl, TC this a = h :: tl /\ tx h ")" = false /\ tx h "]" = false.
+  Proof.
+    intros this a Hok. destruct (head_child this a (head_expr a Hok)) as (h & tl & E & [->|[_ (H1 & H2 & _)]]).
+    - exists (O "("), tl. split; [exact E | split; reflexivity].
+    - exists h, tl. split; [exact E | split; assumption].
+  Qed.
+
+  Lemma good_child : forall close this a, eok a = true -> M a -> (close = ")"%string \/ close = "]"%string) ->
+    good_item close (TC this a, nm a).
+  Proof.
+    intros close this a Hok HM Hcl. split; cbn [fst snd].
+    - apply child_beh; [exact Hok | exact HM | lia | lia].
+    - destruct (child_head this a Hok) as (h & tl & E & H1 & H2). exists h, tl. split; [exact E|].
+      destruct Hcl as [->| ->]; assumption.
+  Qed.
+
+  Lemma good_children : forall close this l, (close = ")"%string \/ close = "]"%string) ->
+    Forall (fun a => eok a = true -> M a) l -> forallb eok l = true ->
+    Forall (good_item close) (map (fun a => (TC this a, nm a)) l).
+  Proof.
+    intros close this l Hcl H. induction H as [|a l Ha Hl IH]; intros Hok; cbn [map]; constructor.
+    - cbn [forallb] in Hok. apply andb_true_iff in Hok. destruct Hok as [Hok _]. apply good_child; auto.
+    - cbn [forallb] in Hok. apply andb_true_iff in Hok. destruct Hok as [_ Hok]. apply IH. exact Hok.
+  Qed.
+
+  Lemma M_non6 : forall e, lev e <> 6 -> Beh (lev e) (TE e) (nm e) -> M e.
+  Proof. intros e H HB. split; [exact HB | intros E; contradiction]. Qed.
+
+  (* ---- values ---- *)
+  Ltac not6 := let E := fresh "E" in intros E; unfold lev in E; cbn [prec_of prec_n] in E; discriminate E.
+
+  Definition MV (v : value) : Prop := Beh (lev (ELit v)) (TV v) (nv v) /\ (lev (ELit v) = 6 -> UN (TV v) (nv v)).
+
+  Lemma beh_prim_down : forall t v L, L <= 8 -> tx t "if" = false -> is_op t = false ->
+    (forall R, R <> [] -> cont (peek R) <= 8 -> Ev (fun f => p_primary f (t :: R)) v R) -> Beh L [t] v.
+  Proof.
+    intros t v L HL H1 H2 H. apply (lift (8 - L) L [t] t []); [lia | reflexivity | intros; exact H1 | intros; exact H2 |].
+    replace (L + (8 - L)) with 8 by lia. apply beh_of_val; [right; right; right; lia|]. intros R HR Hc. cbn [bnd] in Hc.
+    cbn [app PL]. apply H; assumption.
+  Qed.
+
+  Lemma beh_plain_str : forall arg L, L <= 8 -> Forall plain arg -> Beh L [St ([34%Z] ++ arg ++ [34%Z])] (ELit (VString arg)).
+  Proof.
+    intros arg L HL Hp. apply beh_prim_down; [exact HL | reflexivity | reflexivity |]. intros R HR _.
+    apply ev_primary_str; [apply string_value_plain; exact Hp | exact HR].
+  Qed.
+
+  Lemma beh_ext : forall fn arg ar, ext_lookup (s_of fn) = Some (ar, false) ->
+    tx (I fn) "true" = false -> tx (I fn) "false" = false -> Forall plain arg ->
+    Beh 7 (ext_toks fn arg) (ext1 fn arg).
+  Proof.
+    intros fn arg ar He H1 H2 Hp R w r HR Hc Hloop. cbn [LoopL PL bnd] in *.
+    apply (ev_level 7 _ (ext1 fn arg) R); [lia | discriminate | discriminate | | exact Hloop]. cbn [PL].
+    unfold ext_toks. cbn [app].
+    apply (ev_primary_ident (s_of fn)); [exact H1 | exact H2 | reflexivity | ne |].
+    apply (ev_eoe_call (s_of fn) _ [ELit (VString arg)] R ar); [exact He | ne | | exact HR].
+    apply (ev_exprs_list ")" [([St ([34%Z] ++ arg ++ [34%Z])], ELit (VString arg))] [] R); [reflexivity | reflexivity | reflexivity |].
+    constructor; [|constructor]. split; cbn [fst snd].
+    - apply beh_plain_str; [lia | exact Hp].
+    - eexists _, _. split; [reflexivity | reflexivity].
+  Qed.
+
+  Lemma nth_map_lt : forall (A B : Type) (f : A -> B) l i d d', i < List.length l -> nth i (map f l) d' = f (nth i l d).
+  Proof.
+    intros A B f l i d d' H. rewrite (nth_indep (map f l) d' (f d)) by (rewrite map_length; exact H). apply map_nth.
+  Qed.
+
+  Lemma MV_beh0 : forall x, vok x = true -> MV x -> good_item "]" (TV x, nv x).
+  Proof.
+    intros x Hok [HB _]. split; cbn [fst snd].
+    - apply (beh_down (ELit x) 0); [exact Hok | lia | exact HB].
+    - destruct (head_expr (ELit x) Hok) as (h & tl & E & (_ & H2 & _)). exists h, tl. split; [exact E | exact H2].
+  Qed.
+
+  Lemma main_value : forall v, vok v = true -> MV v.
+  Proof.
+    induction v using value_ind'; intros Hok.
+    - (* bool *)
+      split; [|not6]. change (lev (ELit (VBool b))) with 8.
+      apply beh_of_val; [right; right; right; lia|]. intros R HR _. cbn [PL].
+      destruct b; [apply ev_primary_true | apply ev_primary_false]; exact HR.
+    - (* long *)
+      cbn [value_ok] in Hok. unfold MV, lev. cbn [prec_of]. rewrite TV_long. destruct (z <? 0)%Z eqn:Ez; cbn [prec_n].
+      + apply Z.ltb_lt in Ez. pose proof (un_neglit z Ez Hok) as HU. split; [apply un_beh6; exact HU | intros _; exact HU].
+      + apply Z.ltb_ge in Ez. split; [|intros; lia].
+        apply beh_of_val; [right; right; right; lia|]. intros R HR _. cbn [PL app].
+        apply ev_primary_int; [apply int_value_pos; assumption | exact HR].
+    - (* string *)
+      cbn [value_ok] in Hok. split; [|not6]. change (lev (ELit (VString s))) with 8.
+      apply beh_of_val; [right; right; right; lia|]. intros R HR _. cbn [PL]. rewrite TV_string. cbn [app].
+      apply ev_primary_str; [apply sv_quote; exact Hok | exact HR].
+    - (* entity *)
+      cbn [value_ok] in Hok. apply andb_true_iff in Hok. destruct Hok as [Hp Hid].
+      split; [|not6]. change (lev (ELit (VEntity t i))) with 8.
+      apply beh_of_val; [right; right; right; lia|]. intros R HR _. cbn [PL]. rewrite TV_entity.
+      destruct (TP_shape t) as (c & r & Es & Et). rewrite Et. rewrite <- app_assoc. cbn [app].
+      assert (Hc : can_ident c = true).
+      { unfold path_ok in Hp. rewrite Es in Hp. cbn [forallb] in Hp. apply andb_true_iff in Hp. destruct Hp as [Hp _]. exact Hp. }
+      apply ev_primary_ident.
+      + apply tx_ident_reserved; [exact Hc | reflexivity].
+      + apply tx_ident_reserved; [exact Hc | reflexivity].
+      + destruct r; reflexivity.
+      + ne.
+      + change (nv (VEntity t i)) with (ELit (VEntity t i)). rewrite <- (join_split t) at 1. rewrite Es, <- fold_jf_join.
+        apply ev_eoe_path; [apply sv_quote; exact Hid | exact HR].
+    - (* set *)
+      rewrite value_ok_set in Hok. apply andb_true_iff in Hok. destruct Hok as [Ho Hl].
+      split; [|not6]. change (lev (ELit (VSet l))) with 8.
+      apply beh_of_val; [right; right; right; lia|]. intros R HR _. cbn [PL]. rewrite TV_set, norm_value_set.
+      set (items := map (fun i => (nth i (map TV l) [], nth i (map nv l) (ELit (VBool false)))) (set_order l)).
+      assert (E1 : map (fun i => nth i (map TV l) []) (set_order l) = map fst items).
+      { unfold items. rewrite map_map. reflexivity. }
+      assert (E2 : map (fun i => nth i (map nv l) (ELit (VBool false))) (set_order l) = map snd items).
+      { unfold items. rewrite map_map. reflexivity. }
+      rewrite E1, E2. rewrite <- app_comm_cons, <- app_assoc. cbn [app].
+      apply ev_primary_set; [ne | | exact HR].
+      apply (ev_exprs_list "]" items [] R); [reflexivity | reflexivity | reflexivity |].
+      unfold items. apply Forall_forall. intros it Hit. apply in_map_iff in Hit. destruct Hit as (i & <- & Hi).
+      unfold order_ok in Ho. apply andb_true_iff in Ho. destruct Ho as [_ Ho]. rewrite forallb_forall in Ho.
+      specialize (Ho i Hi). apply Nat.ltb_lt in Ho.
+      rewrite (nth_map_lt _ _ TV l i (VBool false)) by exact Ho. rewrite (nth_map_lt _ _ nv l i (VBool false)) by exact Ho.
+      pose proof (nth_In l (VBool false) Ho) as Hin.
+      rewrite forallb_forall in Hl. rewrite Forall_forall in H. apply MV_beh0; [apply Hl; exact Hin | apply H; [exact Hin | apply Hl; exact Hin]].
+    - (* record *)
+      rewrite value_ok_record in Hok. apply andb_true_iff in Hok. destruct Hok as [Hok Hvs]. apply andb_true_iff in Hok. destruct Hok as [Hd Hks].
+      split; [|not6]. change (lev (ELit (VRecord l))) with 8.
+      apply beh_of_val; [right; right; right; lia|]. intros R HR _. cbn [PL]. rewrite TV_record, norm_value_record.
+      set (ens := map (fun kv : str * value => (fst kv, TV (snd kv), nv (snd kv))) l : list entry).
+      assert (E1 : map (fun kv : str * value => Sq (fst kv) :: O ":" :: TV (snd kv)) l = map e_toks ens).
+      { unfold ens. rewrite map_map. reflexivity. }
+      assert (E2 : map (fun kv : str * value => (fst kv, nv (snd kv))) l = map e_kv ens).
+      { unfold ens. rewrite map_map. reflexivity. }
+      assert (E3 : map fst l = map e_key ens).
+      { unfold ens. rewrite map_map. reflexivity. }
+      rewrite E1, E2. rewrite <- app_comm_cons, <- app_assoc. cbn [app].
+      apply ev_primary_record; [ne|].
+      apply (ev_record_list ens [] [] R HR).
+      + unfold ens. apply Forall_forall. intros en Hen. apply in_map_iff in Hen. destruct Hen as (kv & <- & Hkv).
+        rewrite forallb_forall in Hks, Hvs. rewrite Forall_forall in H.
+        split; cbn [e_key fst snd]; [apply Hks; exact Hkv|].
+        destruct (MV_beh0 (snd kv) (Hvs kv Hkv) (H kv Hkv (Hvs kv Hkv))) as [HB _]. exact HB.
+      + rewrite <- E3, <- distinct_keys_fresh. exact Hd.
+      + intros k. reflexivity.
+    - (* decimal *)
+      split; [|not6]. change (lev (ELit (VDecimal z))) with 7.
+      rewrite TV_decimal. apply (beh_ext "decimal" _ 1%Z); [reflexivity | reflexivity | reflexivity | apply print_decimal_plain].
+    - split; [|not6]. change (lev (ELit (VDatetime z))) with 7.
+      rewrite TV_datetime. apply (beh_ext "datetime" _ 1%Z); [reflexivity | reflexivity | reflexivity | apply print_datetime_plain].
+    - split; [|not6]. change (lev (ELit (VDuration z))) with 7.
+      rewrite TV_duration. apply (beh_ext "duration" _ 1%Z); [reflexivity | reflexivity | reflexivity | apply print_duration_plain].
+    - split; [|not6]. change (lev (ELit (VIP b a p))) with 7.
+      rewrite TV_ip. apply (beh_ext "ip" _ 1%Z); [reflexivity | reflexivity | reflexivity | apply print_ip_plain].
+  Qed.
+
+  (* ---- the main induction ---- *)
+  Ltac chb := apply child_beh; [assumption | auto | cbn [prec_n]; lia | lia].
+
+  Lemma method_call_ext : forall n lhs args ar, builtin_method n = false -> ext_lookup n = Some (ar, true) ->
+    method_call n lhs args = Some (ECall n (lhs :: args)).
+  Proof.
+    intros n lhs args ar Hb He. unfold builtin_method in Hb. cbn [existsb] in Hb.
+    repeat (apply orb_false_iff in Hb; destruct Hb as [?H Hb]).
+    unfold method_call. rewrite H, H0, H1, H2, H3, H4, He. reflexivity.
+  Qed.
+
+  Lemma beh_call_fn : forall n items ar, ext_lookup n = Some (ar, false) -> can_ident n = true ->
+    Forall (good_item ")") items ->
+    Beh 7 (Id n :: O "(" :: tcommas (map fst items) ++ [O ")"]) (ECall n (map snd items)).
+  Proof.
+    intros n items ar He Hc Hit R w r HR Hct Hloop. cbn [LoopL PL bnd] in *.
+    apply (ev_level 7 _ (ECall n (map snd items)) R); [lia | discriminate | discriminate | | exact Hloop]. cbn [PL].
+    rewrite <- !app_comm_cons, <- app_assoc. cbn [app].
+    apply ev_primary_ident; [apply tx_ident_reserved; [exact Hc | reflexivity] | apply tx_ident_reserved; [exact Hc | reflexivity] | reflexivity | ne |].
+    apply (ev_eoe_call n _ (map snd items) R ar); [exact He | ne | | exact HR].
+    apply (ev_exprs_list ")" items [] R); [reflexivity | reflexivity | reflexivity | exact Hit].
+  Qed.
+
+  Lemma main_expr : forall e, eok e = true -> M e.
+  Proof.
+    induction e using expr_ind'; intros Hok; cbn [expr_ok] in Hok; okd.
+    - (* ELit *) apply (main_value v Hok).
+    - (* EVar *)
+      apply M_non6; [unfold lev; cbn [prec_of prec_n]; lia|]. change (lev (EVar x)) with 8. rewrite TE_var.
+      apply beh_of_val; [right; right; right; lia|]. intros R HR Hc. cbn [bnd] in Hc. cbn [PL app].
+      apply ev_primary_var; [exact HR | txf | txf].
+    - (* EAnd *)
+      apply M_non6; [unfold lev; cbn [prec_of prec_n]; lia|]. change (lev (EAnd e1 e2)) with 2. rewrite TE_and.
+      apply (beh_binop 2 (O "&&") EAnd); [reflexivity | cbn [bnd]; lia | reflexivity | exact ev_and_loop | chb | chb].
+    - (* EOr *)
+      apply M_non6; [unfold lev; cbn [prec_of prec_n]; lia|]. change (lev (EOr e1 e2)) with 1. rewrite TE_or.
+      apply (beh_binop 1 (O "||") EOr); [reflexivity | cbn [bnd]; lia | reflexivity | exact ev_or_loop | chb | chb].
+    - (* ENot *)
+      assert (HU : UN (TE (ENot e)) (nm (ENot e))).
+      { rewrite TE_not. apply (child_unary e PUnary false); [assumption | auto | right; split; [reflexivity | discriminate]]. }
+      split; [apply un_beh6; exact HU | intros _; exact HU].
+    - (* ENeg *)
+      assert (HU : UN (TE (ENeg e)) (nm (ENeg e))).
+      { rewrite TE_neg. destruct (starts_with_int e) eqn:Es.
+        - apply (child_unary e PAbovePrimary true); [assumption | auto | left; reflexivity].
+        - apply (child_unary e PUnary true); [assumption | auto | right; split; [reflexivity | intros _; exact Es]]. }
+      split; [apply un_beh6; exact HU | intros _; exact HU].
+    - (* EAdd *)
+      apply M_non6; [unfold lev; cbn [prec_of prec_n]; lia|]. change (lev (EAdd e1 e2)) with 4. rewrite TE_add.
+      apply (beh_binop 4 (O "+") EAdd); [reflexivity | cbn [bnd]; lia | reflexivity | exact ev_add_loop_plus | chb | chb].
+    - (* ESub *)
+      apply M_non6; [unfold lev; cbn [prec_of prec_n]; lia|]. change (lev (ESub e1 e2)) with 4. rewrite TE_sub.
+      apply (beh_binop 4 (O "-") ESub); [reflexivity | cbn [bnd]; lia | reflexivity | exact ev_add_loop_minus | chb | chb].
+    - (* EMul *)
+      apply M_non6; [unfold lev; cbn [prec_of prec_n]; lia|]. change (lev (EMul e1 e2)) with 5. rewrite TE_mul.
+      apply (beh_binop 5 (O "*") EMul); [reflexivity | cbn [bnd]; lia | reflexivity | exact ev_mult_loop | chb | chb].
+    - (* EEq *)
+      apply M_non6; [unfold lev; cbn [prec_of prec_n]; lia|]. change (lev (EEq e1 e2)) with 3. rewrite TE_eq.
+      apply (beh_relop (O "==") EEq); [reflexivity | reflexivity | reflexivity | reflexivity | reflexivity | chb | chb].
+    - (* ENe *)
+      apply M_non6; [unfold lev; cbn [prec_of prec_n]; lia|]. change (lev (ENe e1 e2)) with 3. rewrite TE_ne.
+      apply (beh_relop (O "!=") ENe); [reflexivity | reflexivity | reflexivity | reflexivity | reflexivity | chb | chb].
+    - (* ELt *)
+      apply M_non6; [unfold lev; cbn [prec_of prec_n]; lia|]. change (lev (ELt e1 e2)) with 3. rewrite TE_lt.
+      apply (beh_relop (O "<") ELt); [reflexivity | reflexivity | reflexivity | reflexivity | reflexivity | chb | chb].
+    - (* ELe *)
+      apply M_non6; [unfold lev; cbn [prec_of prec_n]; lia|]. change (lev (ELe e1 e2)) with 3. rewrite TE_le.
+      apply (beh_relop (O "<=") ELe); [reflexivity | reflexivity | reflexivity | reflexivity | reflexivity | chb | chb].
+    - (* EGt *)
+      apply M_non6; [unfold lev; cbn [prec_of prec_n]; lia|]. change (lev (EGt e1 e2)) with 3. rewrite TE_gt.
+      apply (beh_relop (O ">") EGt); [reflexivity | reflexivity | reflexivity | reflexivity | reflexivity | chb | chb].
+    - (* EGe *)
+      apply M_non6; [unfold lev; cbn [prec_of prec_n]; lia|]. change (lev (EGe e1 e2)) with 3. rewrite TE_ge.
+      apply (beh_relop (O ">=") EGe); [reflexivity | reflexivity | reflexivity | reflexivity | reflexivity | chb | chb].
+    - (* EIn *)
+      apply M_non6; [unfold lev; cbn [prec_of prec_n]; lia|]. change (lev (EIn e1 e2)) with 3. rewrite TE_in.
+      apply (beh_relop (K "in") EIn); [reflexivity | reflexivity | reflexivity | reflexivity | reflexivity | chb | chb].
+    - (* EContains *)
+      apply M_non6; [unfold lev; cbn [prec_of prec_n]; lia|]. change (lev (EContains e1 e2)) with 7. rewrite TE_contains.
+      apply (beh_method _ (nm e1) (s_of "contains") [(TC PAccess e2, nm e2)]); [chb | constructor; [apply good_child; auto | constructor] | reflexivity].
+    - (* EContainsAll *)
+      apply M_non6; [unfold lev; cbn [prec_of prec_n]; lia|]. change (lev (EContainsAll e1 e2)) with 7. rewrite TE_containsAll.
+      apply (beh_method _ (nm e1) (s_of "containsAll") [(TC PAccess e2, nm e2)]); [chb | constructor; [apply good_child; auto | constructor] | reflexivity].
+    - (* EContainsAny *)
+      apply M_non6; [unfold lev; cbn [prec_of prec_n]; lia|]. change (lev (EContainsAny e1 e2)) with 7. rewrite TE_containsAny.
+      apply (beh_method _ (nm e1) (s_of "containsAny") [(TC PAccess e2, nm e2)]); [chb | constructor; [apply good_child; auto | constructor] | reflexivity].
+    - (* EIsEmpty *)
+      apply M_non6; [unfold lev; cbn [prec_of prec_n]; lia|]. change (lev (EIsEmpty e)) with 7. rewrite TE_isEmpty.
+      apply (beh_method _ (nm e) (s_of "isEmpty") []); [chb | constructor | reflexivity].
+    - (* EAccess *)
+      apply M_non6; [unfold lev; cbn [prec_of prec_n]; lia|]. change (lev (EAccess e k)) with 7. rewrite TE_access.
+      apply (beh_access _ (nm e)); [chb|]. intros R w r HR Hc Hloop. unfold TA. destruct (can_ident k).
+      + split; [discriminate|]. split; [cbn [app]; contc|]. cbn [app].
+        apply ev_access_field; [exact HR | txf | exact Hloop].
+      + split; [discriminate|]. split; [cbn [app]; contc|]. cbn [app].
+        apply (ev_access_index _ k); [apply sv_quote; assumption | exact HR | exact Hloop].
+    - (* EHas *)
+      apply M_non6; [unfold lev; cbn [prec_of prec_n]; lia|]. change (lev (EHas e k)) with 3. rewrite TE_has.
+      apply (beh_reltail _ (nm e)); [chb|]. intros R HR Hc. destruct (can_ident k).
+      + split; [discriminate|]. split; [cbn [app]; contc|]. cbn [app]. apply ev_rel_has_ident; [exact HR | txf].
+      + split; [discriminate|]. split; [cbn [app]; contc|]. cbn [app]. apply ev_rel_has_str; [apply sv_quote; assumption | exact HR].
+    - (* EGetTag *)
+      apply M_non6; [unfold lev; cbn [prec_of prec_n]; lia|]. change (lev (EGetTag e1 e2)) with 7. rewrite TE_getTag.
+      apply (beh_method _ (nm e1) (s_of "getTag") [(TC PAccess e2, nm e2)]); [chb | constructor; [apply good_child; auto | constructor] | reflexivity].
+    - (* EHasTag *)
+      apply M_non6; [unfold lev; cbn [prec_of prec_n]; lia|]. change (lev (EHasTag e1 e2)) with 7. rewrite TE_hasTag.
+      apply (beh_method _ (nm e1) (s_of "hasTag") [(TC PAccess e2, nm e2)]); [chb | constructor; [apply good_child; auto | constructor] | reflexivity].
+    - (* ELike *)
+      apply M_non6; [unfold lev; cbn [prec_of prec_n]; lia|]. change (lev (ELike e p)) with 3. rewrite TE_like.
+      apply (beh_reltail _ (nm e)); [chb|]. intros R HR Hc.
+      split; [discriminate|]. split; [cbn [app]; contc|]. cbn [app]. apply ev_rel_like; [apply pp_quote; assumption | exact HR].
+    - (* EIs *)
+      apply M_non6; [unfold lev; cbn [prec_of prec_n]; lia|]. change (lev (EIs e ty)) with 3. rewrite TE_is.
+      apply (beh_reltail _ (nm e)); [chb|]. intros R HR Hc.
+      split; [discriminate|]. split; [cbn [app]; contc|]. cbn [app].
+      apply ev_rel_is; [ne | apply ev_TP; [exact HR | txf] | txf].
+    - (* EIsIn *)
+      apply M_non6; [unfold lev; cbn [prec_of prec_n]; lia|]. change (lev (EIsIn e1 ty e2)) with 3. rewrite TE_isin.
+      apply (beh_reltail _ (nm e1)); [chb|]. intros R HR Hc.
+      split; [discriminate|]. split; [cbn [app]; contc|]. cbn [app]. rewrite <- app_assoc. cbn [app].
+      apply (ev_rel_isin _ ty (TC PAdd e2 ++ R)); [ne | apply ev_TP; [ne | reflexivity] | ne |].
+      apply (child_val e2 PAdd 4 R); [assumption | auto | cbn [prec_n]; lia | lia | exact HR | cbn [bnd]; lia | left; lia].
+    - (* EIf *)
+      apply M_non6; [unfold lev; cbn [prec_of prec_n]; lia|]. change (lev (EIf e1 e2 e3)) with 0. rewrite TE_if.
+      apply beh_of_val; [left; reflexivity|]. intros R HR Hc. cbn [PL]. cbn [app]. rewrite <- !app_assoc. cbn [app]. rewrite <- !app_assoc. cbn [app].
+      apply (ev_expression_if _ (nm e1) (K "then" :: TC PIf e2 ++ K "else" :: TC PIf e3 ++ R) (TC PIf e2 ++ K "else" :: TC PIf e3 ++ R)
+               (nm e2) (K "else" :: TC PIf e3 ++ R) (TC PIf e3 ++ R) (nm e3) R).
+      + ne.
+      + apply (child_val e1 PIf 0); [assumption | auto | cbn [prec_n]; lia | lia | ne | contb | right; left; reflexivity].
+      + apply exact_cons; [reflexivity | ne].
+      + apply (child_val e2 PIf 0); [assumption | auto | cbn [prec_n]; lia | lia | ne | contb | right; left; reflexivity].
+      + apply exact_cons; [reflexivity | ne].
+      + apply (child_val e3 PIf 0); [assumption | auto | cbn [prec_n]; lia | lia | exact HR | exact Hc | right; left; reflexivity].
+    - (* ESet *)
+      rewrite expr_ok_list in Hok.
+      apply M_non6; [unfold lev; cbn [prec_of prec_n]; lia|]. change (lev (ESet es)) with 8. rewrite TE_set, norm_set.
+      apply beh_of_val; [right; right; right; lia|]. intros R HR _. cbn [PL].
+      set (items := map (fun a => (TC PUnary a, nm a)) es).
+      assert (E1 : map (TC PUnary) es = map fst items) by (unfold items; rewrite map_map; reflexivity).
+      assert (E2 : map nm es = map snd items) by (unfold items; rewrite map_map; reflexivity).
+      rewrite E1, E2. rewrite <- app_comm_cons, <- app_assoc. cbn [app].
+      apply ev_primary_set; [ne | | exact HR].
+      apply (ev_exprs_list "]" items [] R); [reflexivity | reflexivity | reflexivity |].
+      unfold items. apply good_children; [right; reflexivity | exact H | exact Hok].
+    - (* ERecord *)
+      assert (Hall : eok (ERecord kvs) = true) by (cbn [expr_ok]; repeat (apply andb_true_iff; split); assumption).
+      rewrite expr_ok_record in Hall. apply andb_true_iff in Hall. destruct Hall as [Hall Hvs].
+      apply andb_true_iff in Hall. destruct Hall as [Hd Hks].
+      apply M_non6; [unfold lev; cbn [prec_of prec_n]; lia|]. change (lev (ERecord kvs)) with 8. rewrite TE_record, norm_record.
+      apply beh_of_val; [right; right; right; lia|]. intros R HR _. cbn [PL].
+      set (ens := map (fun kv : str * expr => (fst kv, TC PUnary (snd kv), nm (snd kv))) kvs : list entry).
+      assert (E1 : map (fun kv : str * expr => Sq (fst kv) :: O ":" :: TC PUnary (snd kv)) kvs = map e_toks ens).
+      { unfold ens. rewrite map_map. reflexivity. }
+      assert (E2 : map (fun kv : str * expr => (fst kv, nm (snd kv))) kvs = map e_kv ens).
+      { unfold ens. rewrite map_map. reflexivity. }
+      assert (E3 : map fst kvs = map e_key ens).
+      { unfold ens. rewrite map_map. reflexivity. }
+      rewrite E1, E2. rewrite <- app_comm_cons, <- app_assoc. cbn [app].
+      apply ev_primary_record; [ne|].
+      apply (ev_record_list ens [] [] R HR).
+      + unfold ens. apply Forall_forall. intros en Hen. apply in_map_iff in Hen. destruct Hen as (kv & <- & Hkv).
+        rewrite forallb_forall in Hks, Hvs. rewrite Forall_forall in H.
+        split; cbn [e_key fst snd]; [apply Hks; exact Hkv|].
+        apply child_beh; [apply Hvs; exact Hkv | apply H; [exact Hkv | apply Hvs; exact Hkv] | lia | lia].
+      + rewrite <- E3, <- distinct_keys_fresh. exact Hd.
+      + intros k. reflexivity.
+    - (* ECall *)
+      change (eok (ECall n args) = true) in Hok. rewrite expr_ok_call in Hok.
+      apply M_non6; [unfold lev; cbn [prec_of prec_n]; lia|]. change (lev (ECall n args)) with 7.
+      destruct (ext_lookup n) as [[ar [|]]|] eqn:El; [| |discriminate Hok].
+      + okd. assert (Hm : is_method n = true) by (unfold is_method; rewrite El; reflexivity).
+        destruct args as [|a rest]; [discriminate|].
+        inversion H as [|a' rest' IHa IHrest]; subst. cbn [forallb] in *. okd.
+        rewrite (TE_call_method n a rest Hm), norm_call. cbn [map].
+        set (items := map (fun x => (TC PAccess x, nm x)) rest).
+        assert (E1 : map (TC PAccess) rest = map fst items) by (unfold items; rewrite map_map; reflexivity).
+        assert (E2 : map nm rest = map snd items) by (unfold items; rewrite map_map; reflexivity).
+        rewrite E1, E2.
+        apply (beh_method _ (nm a) n items); [chb | unfold items; apply good_children; [left; reflexivity | assumption | assumption] |].
+        apply (method_call_ext n _ _ ar); [apply negb_true_iff; assumption | exact El].
+      + okd. assert (Hm : is_method n = false) by (unfold is_method; rewrite El; reflexivity).
+        rewrite (TE_call_fn n args Hm), norm_call. unfold TP, path_items. rewrite split_path_ident by assumption.
+        cbn [path_items_of]. rewrite toks_of_T, toks_of_nil. cbn [app]. fold (Id n).
+        set (items := map (fun x => (TC PAccess x, nm x)) args).
+        assert (E1 : map (TC PAccess) args = map fst items) by (unfold items; rewrite map_map; reflexivity).
+        assert (E2 : map nm args = map snd items) by (unfold items; rewrite map_map; reflexivity).
+        rewrite E1, E2.
+        apply (beh_call_fn n items ar); [exact El | assumption |].
+        unfold items. apply good_children; [left; reflexivity | assumption | assumption].
+    - (* EPartialError *) discriminate Hok.
+  Qed.
+
+  Theorem parse_print_expr : forall e rest,
+      expr_ok set_order e = true -> rest <> [] -> stop_tok (peek rest) = true ->
+      exists f0, forall f, (f0 <= f)%nat ->
+        p_expression f (toks_of (expr_items is_printable is_gext set_order print_ip extra e) ++ rest) = POk (norm set_order print_ip e) rest.
+  Proof.
+    intros e rest Hok Hr Hs. destruct (main_expr e Hok) as [HB _].
+    pose proof (beh_down e 0 Hok ltac:(lia) HB) as H0.
+    apply (beh_val 0 (TE e) (nm e) rest H0 Hr); [rewrite (stop_cont _ Hs); cbn [bnd]; lia | right; left; reflexivity].
+  Qed.
 End RT.
+
+Print Assumptions parse_print_expr.
